@@ -196,6 +196,9 @@ func New(tape *Tape, cfg Config) *Runtime {
 	if cfg.PreemptMean <= 0 {
 		cfg.PreemptMean = 50
 	}
+	if cfg.TimeHorizon == 0 {
+		cfg.TimeHorizon = 30 * time.Second // simulated; < 0 switches simulated time off
+	}
 	r := &Runtime{byGID: map[uint64]*Task{}, tape: tape, cfg: cfg, preLeft: cfg.Preempt}
 	r.base = runtime.NumGoroutine()
 	return r
